@@ -142,6 +142,13 @@ package eventbus
 //@   effect pure
 //@   ensures result == customName(dynType(namer))
 
+// eventTypeNameOf[T]: the one place where a type name is derived from a Go
+// type rather than from a value.
+//@ func eventTypeNameOf
+//@   props C15
+//@   effect pure
+//@   ensures [C15.nameOf] result == evName(typeOf(T))
+
 //@ func EventType
 //@   props C15 C09
 //@   effect pure
@@ -830,3 +837,79 @@ package eventbus
 //@   requires bus != nil && ctx != nil && handler != nil
 //@   requires bus.store != nil ==> resumable(log(payload(bus.store)), from)
 //@   ensures [C17.delegates] cnt(replayCall) == 1 && lastarg(replayCall, 0) == bus && lastarg(replayCall, 2, String) == from && result == lastres(replayCall, Iface)
+
+// ---------------------------------------------------------------- resumable subscriptions (C12, C15, C17)
+//@ event saveOffset := call SubscriptionStore.SaveOffset
+//@ event loadOffset := call SubscriptionStore.LoadOffset
+//@ event subscribeCall := call Subscribe
+//@ method SubscriptionStore.SaveOffset(sub, ctx, id, offset)
+//@   effect opaque
+// Offsets handed out by a store denote stable positions of its log (assumed).
+//@ method SubscriptionStore.LoadOffset(sub, ctx, id)
+//@   effect opaque
+//@   ensures forall L ref :: {posOf(L, result0)} resumable(L, result0)
+
+// The replay callback of SubscribeWithReplay.  effType/effData: the event's
+// type and data after upcasting (whole chain, or the stored ones on failure).
+//@ def effType(stored) ite(bus.upcastRegistry != nil && lastresi(applyCall, 2, Iface) == nil, lastresi(applyCall, 1, String), stored.Type)
+//@ def effData(stored) ite(bus.upcastRegistry != nil && lastresi(applyCall, 2, Iface) == nil, lastresi(applyCall, 0, String), stored.Data)
+//@ func SubscribeWithReplay$1
+//@   props C12 C17
+//@   maypanic
+//@   requires stored != nil && bus != nil && handler != nil && subStore != nil && ctx != nil
+//@   ensures [C17.sub.apply] bus.upcastRegistry != nil ==> cnt(applyCall) == 1 && lastarg(applyCall, 1, String) == stored.Data && lastarg(applyCall, 2, String) == stored.Type
+//@   ensures [C12.replay.nonmatching] effType(stored) != typeName ==> result == nil && cnt(handlerCall) == 0 && cnt(saveOffset) == 0
+//@   ensures [C12.replay.errors] effType(stored) == typeName && !unjsonOKOf(T, effData(stored)) ==> result != nil && cnt(handlerCall) == 0 && cnt(saveOffset) == 0
+//@   ensures [C12.replay.matching] effType(stored) == typeName && unjsonOKOf(T, effData(stored)) ==> result == nil && cnt(handlerCall) == 1 && cnt(saveOffset) == 1 &&
+//@        lastarg(handlerCall, 0) == handler && lastarg(handlerCall, 1) == unjsonOf(T, effData(stored)) &&
+//@        lastarg(saveOffset, 0, Iface) == subStore && lastarg(saveOffset, 2, String) == subscriptionID && lastarg(saveOffset, 3, String) == stored.Offset
+//@   at call:SubscriptionStore.SaveOffset assert [C12.replay.order] cnt(handlerCall) == 1
+
+// The live handler: the user's handler, then save bus.lastOffset (read under storeMu).
+//@ func SubscribeWithReplay$2
+//@   props C12
+//@   maypanic
+//@   requires bus != nil && handler != nil && subStore != nil && ctx != nil
+//@   ensures [C12.live.handled] cnt(handlerCall) == 1 && lastarg(handlerCall, 0) == handler && lastarg(handlerCall, 1) == event
+//@   at call:SubscriptionStore.SaveOffset assert [C12.live.order] cnt(handlerCall) == 1
+//@   ensures [C12.live.ids] cnt(saveOffset) <= 1 && (cnt(saveOffset) == 1 ==> lastarg(saveOffset, 0, Iface) == subStore && lastarg(saveOffset, 2, String) == subscriptionID
+//@        && lastarg(saveOffset, 3, String) == acq(bus.lastOffset))
+//@   ensures [C12.live.monotone] cnt(saveOffset) == 1 ==> lastarg(saveOffset, 3, String) != ""
+
+//@ func SubscribeWithReplay
+//@   props C12 C15 C17
+//@   requires bus != nil && ctx != nil && handler != nil && BusInv(bus) && (bus.store != nil ==> bus.upcastRegistry != nil)
+//@   ensures [C12.prereq] bus.store == nil ==> result != nil && cnt(replayCall) == 0 && cnt(subscribeCall) == 0
+//@   ensures [C12.resume.from] cnt(replayCall) <= 1 && (cnt(replayCall) == 1 ==> lastarg(replayCall, 0) == bus && lastarg(replayCall, 2, String) == lastresi(loadOffset, 0, String)
+//@        && cnt(loadOffset) == 1 && lastarg(loadOffset, 2, String) == subscriptionID)
+//@   ensures [C12.load.err] cnt(loadOffset) == 1 && lastresi(loadOffset, 1, Iface) != nil ==> result != nil && cnt(replayCall) == 0 && cnt(subscribeCall) == 0
+//@   ensures [C12.replay.errors] cnt(replayCall) == 1 && lastres(replayCall, Iface) != nil ==> result != nil && cnt(subscribeCall) == 0
+//@   at call:Subscribe assert [C12.live.after] cnt(replayCall) == 1 && lastres(replayCall, Iface) == nil
+//@   at call:Subscribe assert [C12.live.complete.paged] !implements_EventStoreStreamer(dynType(bus.store)) ==>
+//@        posOf(old(log(payload(bus.store))), lastresi(loadOffset, 0, String)) + ofcall(replayCall, cnt(replayCb)) == logLen(log(payload(bus.store)))
+//@   at call:Subscribe assert [C12.live.complete.stream] implements_EventStoreStreamer(dynType(bus.store)) ==>
+//@        posOf(old(log(payload(bus.store))), lastresi(loadOffset, 0, String)) + ofcall(replayCall, cnt(replayCb)) == logLen(log(payload(bus.store)))
+//@   at call:(*EventBus).Replay assert [C15.name] {C15} typeName == evName(typeOf(T))
+//@   ensures [C12.live.wrapped] result == nil ==> cnt(subscribeCall) == 1
+//@   ensures [C12.live.registered] result == nil ==> cnt(subscribeCall) == 1 && lastres(subscribeCall, Iface) == nil
+
+// RegisterUpcast: typed upcaster.  Names are the persisted names of From / To;
+// the raw function it registers returns json(f(unjson[From](data))), toType,
+// and fails iff either JSON step fails.
+//@ callback func(From) To(fn, v)
+//@   effect pure
+//@   ensures result == typedUp(fn, v)
+//@ event typedUpCall := call func(From) To
+//@ func RegisterUpcast$1
+//@   props C15 C17
+//@   requires upcast != nil
+//@   ensures [C17.typed.fail] err != nil <==> !unjsonOKOf(From, data) || !jsonOK(boxOf(To, typedUp(upcast, unjsonOf(From, data))))
+//@   ensures [C17.typed.ok] err == nil ==> result0 == json(boxOf(To, typedUp(upcast, unjsonOf(From, data)))) && result1 == toType && cnt(typedUpCall) == 1
+//@   ensures [C17.typed.once] cnt(typedUpCall) <= 1
+
+//@ func RegisterUpcast
+//@   props C15 C16 C17
+//@   requires bus != nil ==> bus.upcastRegistry != nil
+//@   ensures [C15.names] {C15} bus != nil && upcast != nil ==> cnt(registerCall) == 1 && lastarg(registerCall, 1, String) == evName(typeOf(From)) && lastarg(registerCall, 2, String) == evName(typeOf(To))
+//@        && lastarg(registerCall, 0) == bus.upcastRegistry && err == lastres(registerCall, Iface)
+//@   ensures [C16.nil] bus == nil || upcast == nil ==> err != nil && cnt(registerCall) == 0
